@@ -1,4 +1,361 @@
 -------------------------------- MODULE FP --------------------------------
+(***************************************************************************)
+(* IEEE-754 binary32 / binary64 lane semantics (C02, C07, C10-C13).        *)
+(*                                                                         *)
+(* A lane is its little-endian byte image (4 or 8 bytes).  Nothing here    *)
+(* transcribes a division or square-root algorithm: correctly rounded      *)
+(* results are *accepted by postcondition*.  RoundsTo(mode, vs, C, r)      *)
+(* says "r is the correct rounding, in rounding mode `mode`, of the        *)
+(* non-zero real number v whose sign is vs", where v is known only through *)
+(* a comparison oracle  C(d) = sign(|v| - d)  for dyadic rationals d.      *)
+(*   sum / difference:  |v| is an exact dyadic (bignum arithmetic)         *)
+(*   product:           exact dyadic                                       *)
+(*   quotient a/b:      C(d) = cmp(|a|, d * |b|)                           *)
+(*   square root:       C(d) = cmp(a, d * d)                               *)
+(* RoundsTo itself is model-checked against a direct definition on a toy   *)
+(* format (MC_FPtoy.tla).                                                  *)
+(*                                                                         *)
+(* Dyadic magnitudes are records [m |-> bignum, e |-> Int] = m * 2^e.      *)
+(***************************************************************************)
 EXTENDS BV
-FPFactOK(e) == FALSE
+
+(* ------------------------- format parameters -------------------------- *)
+Prec(L)  == IF L = 4 THEN 24 ELSE 53           \* significand bits incl. hidden bit
+Bias(L)  == IF L = 4 THEN 127 ELSE 1023
+EMaxF(L) == IF L = 4 THEN 255 ELSE 2047        \* all-ones exponent field
+Emin(L)  == 1 - Bias(L) - (Prec(L) - 1)        \* exponent of the last place of subnormals
+
+Sign(x) == x[Len(x)] \div 128
+ExpField(x) == IF Len(x) = 4 THEN (x[4] % 128) * 2 + x[3] \div 128
+               ELSE (x[8] % 128) * 16 + x[7] \div 16
+Frac(x) == IF Len(x) = 4 THEN <<x[1], x[2], x[3] % 128>>
+           ELSE <<x[1], x[2], x[3], x[4], x[5], x[6], x[7] % 16>>
+Hidden(L) == IF L = 4 THEN <<0, 0, 128>> ELSE <<0, 0, 0, 0, 0, 0, 16>>
+
+IsNaN(x)  == ExpField(x) = EMaxF(Len(x)) /\ ~BNIsZero(Frac(x))
+IsInf(x)  == ExpField(x) = EMaxF(Len(x)) /\ BNIsZero(Frac(x))
+IsZero(x) == ExpField(x) = 0 /\ BNIsZero(Frac(x))
+IsSubnormal(x) == ExpField(x) = 0 /\ ~BNIsZero(Frac(x))
+IsFinite(x) == ExpField(x) # EMaxF(Len(x))
+IsNormal(x) == ExpField(x) # 0 /\ ExpField(x) # EMaxF(Len(x))
+IsMaxFinite(x) == ExpField(x) = EMaxF(Len(x)) - 1 /\ Frac(x) = Frac(Ones(Len(x)))
+
+\* integer significand and exponent: |x| = MantN(x) * 2^ExpN(x)  (finite x)
+MantN(x) == IF ExpField(x) = 0 THEN Frac(x) ELSE BNAdd(Frac(x), Hidden(Len(x)))
+ExpN(x)  == IF ExpField(x) = 0 THEN Emin(Len(x)) ELSE ExpField(x) - Bias(Len(x)) - (Prec(Len(x)) - 1)
+Mag(x) == [m |-> MantN(x), e |-> ExpN(x)]
+
+FlipSign(x)  == [x EXCEPT ![Len(x)] = (x[Len(x)] + 128) % 256]
+ClearSign(x) == [x EXCEPT ![Len(x)] = x[Len(x)] % 128]
+SetSign(x)   == [x EXCEPT ![Len(x)] = (x[Len(x)] % 128) + 128]
+WithSign(x, s) == IF s = 1 THEN SetSign(x) ELSE ClearSign(x)
+PosZero(L) == Zeros(L)
+PosInf(L) == IF L = 4 THEN <<0, 0, 128, 127>> ELSE <<0, 0, 0, 0, 0, 0, 240, 127>>
+OneF(L)   == IF L = 4 THEN <<0, 0, 128, 63>> ELSE <<0, 0, 0, 0, 0, 0, 240, 63>>
+
+(* ------------------------- dyadic magnitudes -------------------------- *)
+DyTop(d) == d.e + BNBitLen(d.m)                \* position just above the top bit
+DyIsZero(d) == BNIsZero(d.m)
+\* compare two non-negative dyadics: -1, 0, 1.  Top-bit positions decide
+\* unless equal, so alignment shifts stay small.
+DyCmp(d1, d2) ==
+  IF DyIsZero(d1) \/ DyIsZero(d2)
+    THEN (IF DyIsZero(d1) /\ DyIsZero(d2) THEN 0 ELSE IF DyIsZero(d1) THEN -1 ELSE 1)
+  ELSE IF DyTop(d1) > DyTop(d2) THEN 1
+  ELSE IF DyTop(d1) < DyTop(d2) THEN -1
+  ELSE LET e == Min2(d1.e, d2.e) IN BNCmp(BNShl(d1.m, d1.e - e), BNShl(d2.m, d2.e - e))
+DyMul(d1, d2) == [m |-> BNMul(d1.m, d2.m), e |-> d1.e + d2.e]
+\* sum / difference after alignment (callers keep the exponent gap small)
+DyAlign(d, e) == BNShl(d.m, d.e - e)
+DyAdd(d1, d2) == LET e == Min2(d1.e, d2.e) IN [m |-> BNAdd(DyAlign(d1, e), DyAlign(d2, e)), e |-> e]
+DySub(d1, d2) == LET e == Min2(d1.e, d2.e) IN [m |-> BNSub(DyAlign(d1, e), DyAlign(d2, e)), e |-> e]   \* d1 >= d2
+DyInt(n) == [m |-> n, e |-> 0]
+\* a dyadic as an integer bignum (requires it to be an integer: see DyIsInt)
+DyIsInt(d) == d.e >= 0 \/ ~BNLowBitsNonZero(d.m, -d.e)
+DyToInt(d) == IF d.e >= 0 THEN BNShl(d.m, d.e) ELSE BNShr(d.m, -d.e)       \* floor
+
+(* ------------------------------ RoundsTo ------------------------------ *)
+\* r finite or infinite, not NaN.  |v| + k/4 ulp(r) as a dyadic: 4*mr + k at exponent er - 2.
+QuarterSteps(r, k) ==
+  LET m4 == BNMulSmall(MantN(r), 4) IN
+  [m |-> IF k >= 0 THEN BNAdd(m4, FromNat(k)) ELSE BNSub(m4, FromNat(-k)), e |-> ExpN(r) - 2]
+
+RoundsTo(mode, vs, C(_), r) ==
+  LET L == Len(r)
+      down == mode = "RZ" \/ (mode = "RD" /\ vs = 0) \/ (mode = "RU" /\ vs = 1)   \* magnitude truncates
+      MaxF == [m |-> MantN(Ones(L)), e |-> EMaxF(L) - 1 - Bias(L) - (Prec(L) - 1)]
+      \* MantN(Ones) = 2^P - 1; max finite + half ulp = (2^(P+1) - 1) * 2^(emax-1)
+      MaxFHalf == [m |-> BNAdd(BNMulSmall(MaxF.m, 2), <<1>>), e |-> MaxF.e - 1]
+  IN
+  /\ ~IsNaN(r)
+  /\ Sign(r) = vs
+  /\ IF IsInf(r)
+       THEN CASE mode = "RN" -> C(MaxFHalf) >= 0
+              [] down        -> FALSE
+              [] OTHER       -> C(MaxF) > 0                        \* rounds away: anything above max finite
+       ELSE LET isz == BNIsZero(MantN(r))
+                \* below a power of two (normal, not the smallest binade) the spacing halves
+                edge == Frac(r) = Zeros(Len(Frac(r))) /\ ExpField(r) > 1
+                hDn == IF edge THEN 1 ELSE 2
+                even == Bit(MantN(r), 0) = 0
+            IN CASE mode = "RN" ->
+                      /\ (C(QuarterSteps(r, 2)) < 0 \/ (C(QuarterSteps(r, 2)) = 0 /\ even))
+                      /\ (isz \/ C(QuarterSteps(r, -hDn)) > 0 \/ (C(QuarterSteps(r, -hDn)) = 0 /\ even))
+                      /\ ~(IsMaxFinite(r) /\ C(MaxFHalf) >= 0)
+                 [] down ->
+                      /\ C(QuarterSteps(r, 0)) >= 0
+                      /\ (IsMaxFinite(r) \/ C(QuarterSteps(r, 4)) < 0)
+                 [] OTHER ->                                        \* magnitude rounds up
+                      /\ ~isz
+                      /\ C(QuarterSteps(r, 0)) <= 0
+                      /\ C(QuarterSteps(r, -2 * hDn)) > 0
+
+(* --------------------------- C10 arithmetic --------------------------- *)
+\* exact signed sum of two finite values: [s, m, e]; a far smaller operand is
+\* replaced by a sticky quantity of the same sign (rounding-equivalent)
+SumSigned(a, b) ==
+  LET da0 == Mag(a)  db0 == Mag(b)
+      za == DyIsZero(da0)  zb == DyIsZero(db0)
+      \* gap: how far below the other operand's last place an operand ends
+      stickyB == ~za /\ ~zb /\ DyTop(db0) + 3 <= da0.e
+      stickyA == ~za /\ ~zb /\ DyTop(da0) + 3 <= db0.e
+      da == IF stickyA THEN [m |-> <<1>>, e |-> db0.e - 3] ELSE da0
+      db == IF stickyB THEN [m |-> <<1>>, e |-> da0.e - 3] ELSE db0
+      e == Min2(da.e, db.e)
+      ma == DyAlign(da, e)  mb == DyAlign(db, e)
+  IN IF Sign(a) = Sign(b) THEN [s |-> Sign(a), m |-> BNAdd(ma, mb), e |-> e]
+     ELSE IF BNCmp(ma, mb) >= 0 THEN [s |-> Sign(a), m |-> BNSub(ma, mb), e |-> e]
+     ELSE [s |-> Sign(b), m |-> BNSub(mb, ma), e |-> e]
+
+AddOK(mode, a, b, r) ==
+  IF IsNaN(a) \/ IsNaN(b) THEN IsNaN(r)
+  ELSE IF IsInf(a) \/ IsInf(b) THEN
+       IF IsInf(a) /\ IsInf(b) /\ Sign(a) # Sign(b) THEN IsNaN(r)
+       ELSE r = (IF IsInf(a) THEN a ELSE b)
+  ELSE LET v == SumSigned(a, b) IN
+       IF BNIsZero(v.m)
+         THEN IsZero(r) /\ Sign(r) = (IF Sign(a) = Sign(b) THEN Sign(a) ELSE IF mode = "RD" THEN 1 ELSE 0)
+         ELSE LET C(d) == DyCmp([m |-> v.m, e |-> v.e], d) IN RoundsTo(mode, v.s, C, r)
+SubOK(mode, a, b, r) == IF IsNaN(b) THEN IsNaN(r) ELSE AddOK(mode, a, FlipSign(b), r)
+
+MulOK(mode, a, b, r) ==
+  LET vs == (Sign(a) + Sign(b)) % 2 IN
+  IF IsNaN(a) \/ IsNaN(b) THEN IsNaN(r)
+  ELSE IF IsInf(a) \/ IsInf(b) THEN
+       IF IsZero(a) \/ IsZero(b) THEN IsNaN(r) ELSE IsInf(r) /\ Sign(r) = vs
+  ELSE IF IsZero(a) \/ IsZero(b) THEN IsZero(r) /\ Sign(r) = vs
+  ELSE LET v == DyMul(Mag(a), Mag(b))  C(d) == DyCmp(v, d) IN RoundsTo(mode, vs, C, r)
+
+DivOK(mode, a, b, r) ==
+  LET vs == (Sign(a) + Sign(b)) % 2 IN
+  IF IsNaN(a) \/ IsNaN(b) THEN IsNaN(r)
+  ELSE IF IsInf(a) THEN (IF IsInf(b) THEN IsNaN(r) ELSE IsInf(r) /\ Sign(r) = vs)
+  ELSE IF IsInf(b) THEN IsZero(r) /\ Sign(r) = vs
+  ELSE IF IsZero(b) THEN (IF IsZero(a) THEN IsNaN(r) ELSE IsInf(r) /\ Sign(r) = vs)
+  ELSE IF IsZero(a) THEN IsZero(r) /\ Sign(r) = vs
+  ELSE LET C(d) == DyCmp(Mag(a), DyMul(d, Mag(b))) IN RoundsTo(mode, vs, C, r)
+
+SqrtOK(mode, a, r) ==
+  IF IsNaN(a) THEN IsNaN(r)
+  ELSE IF IsZero(a) THEN r = a
+  ELSE IF Sign(a) = 1 THEN IsNaN(r)
+  ELSE IF IsInf(a) THEN r = a
+  ELSE LET C(d) == DyCmp(Mag(a), DyMul(d, d)) IN RoundsTo(mode, 0, C, r)
+
+(* --------------------------- C02 comparisons -------------------------- *)
+\* ordered comparison of non-NaN values: -1, 0, 1 (+0 = -0)
+FCmp(a, b) ==
+  IF IsZero(a) /\ IsZero(b) THEN 0
+  ELSE IF Sign(a) # Sign(b) THEN (IF Sign(a) = 1 THEN -1 ELSE 1)
+  ELSE LET c == BNCmp(ClearSign(a), ClearSign(b)) IN IF Sign(a) = 1 THEN -c ELSE c
+Unordered(a, b) == IsNaN(a) \/ IsNaN(b)
+FCmpOp(op, a, b) ==
+  IF Unordered(a, b) THEN op = "ne"
+  ELSE LET c == FCmp(a, b) IN
+       CASE op = "eq" -> c = 0 [] op = "ne" -> c # 0 [] op = "lt" -> c < 0
+         [] op = "le" -> c <= 0 [] op = "gt" -> c > 0 [] op = "ge" -> c >= 0
+\* C13 quiet comparison predicates
+QuietOp(op, a, b) ==
+  CASE op = "isunordered" -> Unordered(a, b)
+    [] OTHER -> ~Unordered(a, b) /\
+       LET c == FCmp(a, b) IN
+       CASE op = "isgreater" -> c > 0 [] op = "isgreaterequal" -> c >= 0
+         [] op = "isless" -> c < 0 [] op = "islessequal" -> c <= 0
+         [] op = "islessgreater" -> c # 0
+
+(* ------------------------- C13 classification ------------------------- *)
+Classify(x) == IF IsNaN(x) THEN "nan" ELSE IF IsInf(x) THEN "inf" ELSE IF IsZero(x) THEN "zero"
+               ELSE IF IsSubnormal(x) THEN "subnormal" ELSE "normal"
+
+(* --------------------- C11 rounding to an integer --------------------- *)
+\* r is an integral value and is the rounding of finite non-integral x per `how`:
+\*   "trunc" "floor" "ceil" "round" (ties away) "even" (ties to even)
+IsIntegralF(x) == IsFinite(x) /\ DyIsInt(Mag(x))
+ToIntegralOK(how, x, r) ==
+  LET ax == Mag(x)
+      away == (how = "floor" /\ Sign(x) = 1) \/ (how = "ceil" /\ Sign(x) = 0)
+      tow  == how = "trunc" \/ (how = "floor" /\ Sign(x) = 0) \/ (how = "ceil" /\ Sign(x) = 1)
+  IN /\ IsIntegralF(r)
+     /\ (IsZero(r) \/ Sign(r) = Sign(x))        \* a computed zero may carry either sign
+     /\ LET n == DyToInt(Mag(r))                \* |r| as an integer bignum
+            N  == DyInt(n)
+            N1 == DyInt(BNAdd(n, <<1>>))
+            halfUp == [m |-> BNAdd(BNMulSmall(n, 2), <<1>>), e |-> -1]                  \* n + 1/2
+        IN CASE tow  -> DyCmp(N, ax) < 0 /\ DyCmp(N1, ax) > 0
+             [] away -> DyCmp(N, ax) > 0 /\ (BNIsZero(n) \/ DyCmp(DyInt(BNSub(n, <<1>>)), ax) < 0)
+             [] OTHER ->                         \* nearest
+                  LET below == DyCmp(N, ax) < 0   \* |r| < |x|
+                  IN IF below
+                       THEN \* |x| - n <= 1/2 ; tie allowed only for "even" with n even
+                            \/ DyCmp(halfUp, ax) > 0
+                            \/ (DyCmp(halfUp, ax) = 0 /\ how = "even" /\ Bit(n, 0) = 0)
+                       ELSE \* n - |x| <= 1/2 ; n >= 1
+                            LET halfDn == [m |-> BNSub(BNMulSmall(n, 2), <<1>>), e |-> -1] IN
+                            \/ DyCmp(halfDn, ax) < 0
+                            \/ (DyCmp(halfDn, ax) = 0 /\ (how = "round" \/ Bit(n, 0) = 0))
+
+RoundFnOK(fn, mode, x, r) ==
+  IF IsNaN(x) THEN IsNaN(r)
+  ELSE IF IsInf(x) \/ IsIntegralF(x) THEN r = x        \* unchanged, bit for bit (also -0.0)
+  ELSE LET how == CASE fn = "ceil" -> "ceil" [] fn = "floor" -> "floor" [] fn = "trunc" -> "trunc"
+                    [] fn = "round" -> "round"
+                    [] OTHER -> CASE mode = "RN" -> "even" [] mode = "RD" -> "floor"
+                                  [] mode = "RU" -> "ceil" [] mode = "RZ" -> "trunc"
+       IN ToIntegralOK(how, x, r)
+
+(* ------------------------------- C12 ---------------------------------- *)
+\* small signed integers given as two's complement byte sequences (exponents)
+IntNeg(s) == s[Len(s)] >= 128
+IntSmallMag(s) ==   \* |value| if it is < 2^15, else 32767 ("large")
+  LET neg == IntNeg(s)
+      fill == IF neg THEN 255 ELSE 0
+      upperOK == \A i \in 3..Len(s) : s[i] = fill
+      v16 == s[1] + 256 * s[2]
+  IN IF ~upperOK THEN 32767
+     ELSE IF neg THEN (IF v16 > 32768 THEN 65536 - v16 ELSE 32767)
+     ELSE (IF v16 < 32768 THEN v16 ELSE 32767)
+\* exponent clamped to +-5000: beyond that every result is already 0 / inf
+ClampedExp(s) == LET m == Min2(IntSmallMag(s), 5000) IN IF IntNeg(s) THEN -m ELSE m
+\* two's complement encoding of a small integer into L bytes
+IntEnc(v, L) == IF v >= 0 THEN FromNatL(v, L) ELSE NegW(FromNatL(-v, L))
+
+\* unbiased exponent of a finite non-zero value, normalising subnormals
+Ilog(x) == DyTop(Mag(x)) - 1
+
+\* frexp: significand in [0.5, 1) carrying x's sign and bits, exponent Ilog+1
+FrexpOK(x, f, ex) ==
+  IF IsNaN(x) THEN IsNaN(f)                                   \* exponent unspecified
+  ELSE IF IsInf(x) THEN f = x                                 \* exponent unspecified
+  ELSE IF IsZero(x) THEN f = x /\ ex = IntEnc(0, Len(ex))
+  ELSE /\ ex = IntEnc(Ilog(x) + 1, Len(ex))
+       /\ Sign(f) = Sign(x) /\ ExpField(f) = Bias(Len(x)) - 1
+       /\ DyCmp([m |-> MantN(f), e |-> ExpN(f) + Ilog(x) + 1], Mag(x)) = 0
+
+LdexpOK(mode, x, es, r) ==
+  IF IsNaN(x) THEN IsNaN(r)
+  ELSE IF IsInf(x) \/ IsZero(x) THEN r = x
+  ELSE LET v == [m |-> MantN(x), e |-> ExpN(x) + ClampedExp(es)]
+           C(d) == DyCmp(v, d)
+       IN RoundsTo(mode, Sign(x), C, r)
+
+\* ilogb: c0 / cnan / cinf are the platform's FP_ILOGB0, FP_ILOGBNAN, INT_MAX images
+IlogbOK(x, r, c0, cnan, cinf) ==
+  IF IsNaN(x) THEN r = cnan ELSE IF IsInf(x) THEN r = cinf ELSE IF IsZero(x) THEN r = c0
+  ELSE r = IntEnc(Ilog(x), Len(r))
+\* logb: the same exponent as a floating-point value; -inf / +inf / NaN for 0 / inf / NaN
+LogbOK(x, r) ==
+  IF IsNaN(x) THEN IsNaN(r) ELSE IF IsInf(x) THEN r = PosInf(Len(x))
+  ELSE IF IsZero(x) THEN r = SetSign(PosInf(Len(x)))
+  ELSE LET E == Ilog(x) IN
+       IF E = 0 THEN IsZero(r)
+       ELSE /\ IsFinite(r) /\ Sign(r) = (IF E < 0 THEN 1 ELSE 0)
+            /\ DyCmp(Mag(r), DyInt(FromNat(IF E < 0 THEN -E ELSE E))) = 0
+
+FmaxOK(a, b, r) ==
+  IF IsNaN(a) /\ IsNaN(b) THEN IsNaN(r)
+  ELSE IF IsNaN(a) THEN r = b ELSE IF IsNaN(b) THEN r = a
+  ELSE LET c == FCmp(a, b) IN IF c > 0 THEN r = a ELSE IF c < 0 THEN r = b ELSE r \in {a, b}
+FminOK(a, b, r) ==
+  IF IsNaN(a) /\ IsNaN(b) THEN IsNaN(r)
+  ELSE IF IsNaN(a) THEN r = b ELSE IF IsNaN(b) THEN r = a
+  ELSE LET c == FCmp(a, b) IN IF c < 0 THEN r = a ELSE IF c > 0 THEN r = b ELSE r \in {a, b}
+\* fdim: positive difference max(x - y, 0)
+FdimOK(mode, a, b, r) ==
+  IF IsNaN(a) \/ IsNaN(b) THEN IsNaN(r)
+  ELSE IF FCmp(a, b) > 0 THEN SubOK(mode, a, b, r)
+  ELSE IsZero(r)      \* "max(x-y, 0)": the sign of that zero is not part of the property
+\* frac: x - trunc(x), exact
+FracOK(x, r) ==
+  IF IsNaN(x) \/ IsInf(x) THEN IsNaN(r)
+  ELSE IF IsZero(x) \/ IsIntegralF(x) THEN IsZero(r)
+  ELSE /\ IsFinite(r) /\ ~IsZero(r) /\ Sign(r) = Sign(x)
+       /\ DyCmp(Mag(r), DyInt(<<1>>)) < 0
+       /\ IF DyCmp(Mag(x), DyInt(<<1>>)) < 0 THEN r = x
+          ELSE LET d == DySub(Mag(x), Mag(r)) IN DyIsInt(d)          \* |x| - |r| is a whole number
+
+(* ----------------------- C07 floating-point part ---------------------- *)
+FMinOK(a, b, r) == (IsNaN(a) \/ IsNaN(b)) \/
+                   (LET c == FCmp(a, b) IN IF c < 0 THEN r = a ELSE IF c > 0 THEN r = b ELSE r \in {a, b})
+FMaxOK(a, b, r) == (IsNaN(a) \/ IsNaN(b)) \/
+                   (LET c == FCmp(a, b) IN IF c > 0 THEN r = a ELSE IF c < 0 THEN r = b ELSE r \in {a, b})
+FClampOK(x, lo, hi, r) ==
+  (IsNaN(x) \/ IsNaN(lo) \/ IsNaN(hi) \/ FCmp(lo, hi) >= 0) \/
+  (IF FCmp(x, lo) < 0 THEN r = lo ELSE IF FCmp(x, hi) > 0 THEN r = hi
+   ELSE IF FCmp(x, lo) = 0 THEN r \in {x, lo} ELSE IF FCmp(x, hi) = 0 THEN r \in {x, hi} ELSE r = x)
+
+(***************************************************************************)
+(* Fact judgement (k = "f").                                               *)
+(***************************************************************************)
+FM(e) == e.m = 1
+B2(b) == IF b THEN 1 ELSE 0
+
+FPFactOK(e) ==
+  LET o == e.o IN
+  /\ e.sig = "none"
+  /\ CASE o = "add" -> AddOK(e.rm, e.a, e.b, e.r)
+       [] o = "sub" -> SubOK(e.rm, e.a, e.b, e.r)
+       [] o = "mul" -> MulOK(e.rm, e.a, e.b, e.r)
+       [] o = "fdiv" -> DivOK(e.rm, e.a, e.b, e.r)
+       [] o = "sqrt" -> SqrtOK(e.rm, e.a, e.r)
+       [] o = "inc" -> AddOK(e.rm, e.a, OneF(Len(e.a)), e.r)
+       [] o = "dec" -> SubOK(e.rm, e.a, OneF(Len(e.a)), e.r)
+       [] o = "neg" -> e.r = FlipSign(e.a)
+       [] o = "pos" -> e.r = e.a
+       [] o = "id"  -> e.r = e.a
+       [] o \in {"eq", "ne", "lt", "le", "gt", "ge"} -> e.r = B2(FCmpOp(o, e.a, e.b))
+       [] o \in {"isgreater", "isgreaterequal", "isless", "islessequal", "islessgreater", "isunordered"}
+                    -> e.r = B2(QuietOp(o, e.a, e.b))
+       [] o = "fpclassify" -> e.r = Classify(e.a)
+       [] o = "isnan"    -> e.r = B2(IsNaN(e.a))
+       [] o = "isinf"    -> e.r = B2(IsInf(e.a))
+       [] o = "isfinite" -> e.r = B2(IsFinite(e.a))
+       [] o = "isnormal" -> e.r = B2(IsNormal(e.a))
+       [] o = "signbit"  -> e.r = Sign(e.a)
+       [] o \in {"ceil", "floor", "trunc", "round", "nearbyint", "rint"} -> RoundFnOK(o, e.rm, e.a, e.r)
+       [] o = "frexp"  -> FrexpOK(e.a, e.r, e.ex)
+       \* C12 says "correctly rounded" without naming the mode: a result that is the
+       \* correct rounding under the current mode or under round-to-nearest is accepted
+       [] o = "ldexp"  -> LdexpOK(e.rm, e.a, e.ex, e.r) \/ LdexpOK("RN", e.a, e.ex, e.r)
+       [] o = "ilogb"  -> IlogbOK(e.a, e.r, e.c0, e.cnan, e.cinf)
+       [] o = "logb"   -> LogbOK(e.a, e.r)
+       [] o = "fmax"   -> FmaxOK(e.a, e.b, e.r)
+       [] o = "fmin"   -> FminOK(e.a, e.b, e.r)
+       [] o = "fdim"   -> FdimOK(e.rm, e.a, e.b, e.r)
+       [] o = "frac"   -> FracOK(e.a, e.r)
+       [] o = "abs"      -> e.r = ClearSign(e.a)
+       [] o = "neg_abs"  -> e.r = SetSign(e.a)
+       [] o = "negate"   -> e.r = (IF FM(e) THEN FlipSign(e.a) ELSE e.a)
+       [] o = "copysign" -> e.r = WithSign(e.a, Sign(e.b))
+       [] o = "blend"  -> e.r = (IF FM(e) THEN e.a ELSE e.b)
+       [] o = "keep"   -> e.r = (IF FM(e) THEN e.a ELSE Zeros(Len(e.a)))
+       [] o = "clear"  -> e.r = (IF FM(e) THEN Zeros(Len(e.a)) ELSE e.a)
+       [] o = "min"    -> FMinOK(e.a, e.b, e.r)
+       [] o = "max"    -> FMaxOK(e.a, e.b, e.r)
+       [] o = "clamp"  -> FClampOK(e.a, e.b, e.c, e.r)
+       [] o = "b2v"    -> e.r = (IF FM(e) THEN OneF(Len(e.r)) ELSE Zeros(Len(e.r)))
+       [] o = "nz"     -> e.r = B2(IsNaN(e.a) \/ ~IsZero(e.a))     \* compares unequal to zero
+       [] o = "byteswap" -> e.r = ByteSwap(e.a)
+       [] o = "bit_cast" -> e.r = e.a
+       [] o = "conv"   -> e.r = e.a                                 \* identity conversion
+       [] OTHER -> FALSE
 =============================================================================
